@@ -80,6 +80,21 @@ def translate(ctx):
     c18_flags.translate(ctx)
 
 
+def gen_flag(name):
+    """a boolean definition of Gen/C18_flags.v as the translator last wrote it"""
+    import re
+    from harness.common.framework import VERIF
+    m = re.search(rf"Definition {name} : bool := (\w+)\.", (VERIF / "coq/Gen/C18_flags.v").read_text())
+    return bool(m) and m.group(1) == "true"
+
+
+def body_imports(table):
+    """decorated classes with a name bound by an import inside the class body (render_class: an un-annotated plain attribute at a
+    position with (style + k) % 9 == 4)"""
+    return [i for i, c in enumerate(table) if c["dec"] is not None
+            and any(s[0] == "attr" and s[2] == "none" and s[3][0] == "plain" and (c.get("style", 0) + k) % 9 == 4 for k, s in enumerate(c["body"]))]
+
+
 def current_mode():
     """the shape of the merging code as the translator last wrote it (Gen/C18_flags.v)"""
     import re
@@ -92,7 +107,6 @@ def current_mode():
 REPAIRED_BY_MODE = {"FlatFilterFirst": set(), "FlatFilterLast": {"C18-F3"}, "Accumulated": {"C18-F3", "C18-F6"}}
 
 NAMES = 6
-HDR = "from dataclasses import dataclass, field, KW_ONLY, InitVar\nimport dataclasses\nfrom typing import ClassVar\n"
 FINDINGS = ["C18-F2", "C18-F3", "C18-F4", "C18-F6", "C18-F7"]     # order of the model's `gaps` list: [G2; G3; G4; G6; G7]
 GK = {"positional or keyword": "PK", "keyword-only": "KO"}
 IK = {inspect.Parameter.POSITIONAL_OR_KEYWORD: "PK", inspect.Parameter.KEYWORD_ONLY: "KO"}
@@ -107,7 +121,20 @@ def r_bool(b):
     return "True" if b else "False"
 
 
-def render_value(v, uid, style):
+HELPERS = ["dataclass", "field", "KW_ONLY", "InitVar", "ClassVar"]      # the layout model's helper names 0..4
+ALIAS = {"dataclass": "dcls", "field": "fld", "KW_ONLY": "KWO", "InitVar": "IVar", "ClassVar": "CV"}
+
+
+def sp(name, style, via=()):
+    """How a helper name is spelled at one site: bare (direct import, or the only binding when the name reaches the module through
+    the package's _compat module / a star import), through the module, through a module alias, or through an `as` alias."""
+    if name in via:
+        return name
+    mod, al = ("typing", "t") if name == "ClassVar" else ("dataclasses", "dc")
+    return [name, f"{mod}.{name}", f"{al}.{name}", ALIAS[name], name][style % 5]
+
+
+def render_value(v, uid, style, via=()):
     if v[0] == "none":
         return ""
     if v[0] == "plain":
@@ -126,12 +153,11 @@ def render_value(v, uid, style):
         args.append("repr=False")
     if style % 2:
         args.reverse()
-    fn = "dataclasses.field" if style % 3 == 1 else "field"
-    return f" = {fn}({', '.join(args)})"
+    return f" = {sp('field', style // 2, via)}({', '.join(args)})"
 
 
-def render_class(i, c, ind="    "):
-    """c = {dec, body, hw, bases, style}; returns (lines, init_line_offset or None)."""
+def render_class(i, c, ind="    ", via=()):
+    """c = {dec, body, hw, bases, style[, post]}; returns (lines, init_line_offset or None).  via: helper names that must be spelled bare."""
     lines = []
     style = c.get("style", 0)
     if c["dec"] is not None:
@@ -145,7 +171,7 @@ def render_class(i, c, ind="    "):
             args.append("eq=False")
         if style % 2:
             args.reverse()
-        dn = "dataclasses.dataclass" if style % 3 == 2 else "dataclass"
+        dn = sp("dataclass", style // 3, via)
         if args or style % 7 == 3:
             lines.append(f"@{dn}({', '.join(args)})")
         else:
@@ -157,10 +183,13 @@ def render_class(i, c, ind="    "):
         uid = 1000 + 100 * i + k
         if s[0] == "attr":
             _, n, a, v = s
-            ann = {"none": "", "plain": ": int", "classvar": ": ClassVar[int]",
-                   "initvar": ": dataclasses.InitVar[int]" if style % 3 == 1 else ": InitVar[int]",
-                   "kwonly": ": dataclasses.KW_ONLY" if style % 3 == 2 else ": KW_ONLY"}[a]
-            body.append(f"{fname(n)}{ann}{render_value(v, uid, style + k)}")
+            ann = {"none": "", "plain": ": int", "classvar": f": {sp('ClassVar', style + k, via)}[int]",
+                   "initvar": f": {sp('InitVar', style // 7 + k, via)}[int]",
+                   "kwonly": f": {sp('KW_ONLY', style // 11, via)}"}[a]
+            if a == "none" and v[0] == "plain" and (style + k) % 9 == 4:
+                body.append(f"from os import path as {fname(n)}")       # a name bound by an import inside the class body: a class attribute like any other
+            else:
+                body.append(f"{fname(n)}{ann}{render_value(v, uid, style + k, via)}")
         elif s[0] == "def":
             _, n, prop = s
             if prop:
@@ -173,6 +202,11 @@ def render_class(i, c, ind="    "):
             body.append(f"{fname(n)}: int")
             body.append("@property")
             body.append(f"def {fname(n)}(self) -> int: return {uid}")
+    if c.get("post"):
+        # assignments in __post_init__ are no fields and change no field (neither for CPython nor for the visitor)
+        body.append("def __post_init__(self, *initvars):")
+        for n, annotated in c["post"]:
+            body.append(f"    self.{fname(n)}{': int' if annotated else ''} = {2000 + n}")
     init_off = None
     if c["hw"] is not None:
         init_off = len(lines) + len(body)
@@ -188,12 +222,50 @@ def render_class(i, c, ind="    "):
     return lines + [ind + b for b in body], init_off
 
 
-def header(table):
-    """table[0]['style'] % 11 == 4: the module uses `from __future__ import annotations` (CPython then sees string annotations)."""
-    lines = HDR.rstrip("\n").split("\n")
+def typing_star(table):
+    """table[0]['style'] % 13 == 5: ClassVar comes from `from typing import *` (never expanded: typing is not loaded)"""
+    return bool(table) and table[0].get("style", 0) % 13 == 5
+
+
+def header(table, via=(), compat=None, how="from"):
+    """Import lines of a generated module.  Every one-hop spelling is imported (direct, module, module alias, `as` alias) so that
+    each site can pick one.  via: helper names that reach this module through `compat` (the package's _compat module) instead:
+    they get no direct binding here; how = "from" (explicit re-export import) or "star".
+    table[0]['style'] % 11 == 4: the module uses `from __future__ import annotations` (CPython then sees string annotations)."""
+    dc_names = [n for n in HELPERS[:4] if n not in via]
+    lines = []
     if table and table[0].get("style", 0) % 11 == 4:
-        lines.insert(0, "from __future__ import annotations")
+        lines.append("from __future__ import annotations")
+    if dc_names:
+        lines.append("from dataclasses import " + ", ".join(dc_names))
+    lines.append("import dataclasses")
+    lines.append("import dataclasses as dc")
+    if dc_names:
+        lines.append("from dataclasses import " + ", ".join(f"{n} as {ALIAS[n]}" for n in dc_names))
+    if "ClassVar" not in via:
+        lines.append("from typing import *" if typing_star(table) else "from typing import ClassVar")
+        lines.append("import typing")
+        lines.append("import typing as t")
+        lines.append("from typing import ClassVar as CV")
+    if via:
+        lines.append(f"from {compat} import " + (", ".join(n for n in HELPERS if n in via) if how == "from" else "*"))
     return lines
+
+
+def compat_source(via):
+    dc_names = [n for n in HELPERS[:4] if n in via]
+    return (("from dataclasses import " + ", ".join(dc_names) + "\n") if dc_names else "") + ("from typing import ClassVar\n" if "ClassVar" in via else "")
+
+
+def via_parts(split):
+    """(helper names routed through the package's _compat module, "from" | "star") of a package layout"""
+    v = split.get("via") if isinstance(split, dict) else None
+    return (tuple(v["names"]), v["how"]) if v else ((), "from")
+
+
+def spell_via(table, via):
+    """names that must be spelled bare at every site: those routed through _compat, and ClassVar when it comes from `from typing import *`"""
+    return tuple(via) + (("ClassVar",) if typing_star(table) and "ClassVar" not in via else ())
 
 
 def render(table, split=None):
@@ -203,7 +275,7 @@ def render(table, split=None):
     hw_line = {}
     for i, c in enumerate(table):
         lines.append("")
-        cl, off = render_class(i, c)
+        cl, off = render_class(i, c, via=spell_via(table, ()))
         if off is not None:
             hw_line[i] = len(lines) + off + 1
         lines.extend(cl)
@@ -219,7 +291,7 @@ def split_parts(split):
     return split, "from"
 
 
-def render_split(table, where, pkg, imp="from"):
+def render_split(table, where, pkg, imp="from", via=(), how="from"):
     """where[i] in ('ma','mz'): Griffe sees a package with two modules whose classes inherit across the module boundary.
     imp: how a base class defined in the other module reaches the module that uses it:
       from      explicit `from pkg.other import K0` / `from .other import K0`
@@ -228,12 +300,13 @@ def render_split(table, where, pkg, imp="from"):
       wild_shadow  the star import after the stdlib imports, no __all__: the star re-binds dataclass/field/... (finding C18-F10)
       reexport  `from pkg import K0`, the package __init__ re-exporting with wildcard imports of both modules
       reexport_from  the same with explicit from-imports in __init__
+    via / how: helper names that reach both modules through the package's `_compat` module (explicit import or star import).
     Returns ({module: source} including "__init__", {class index: line of the hand-written def __init__})."""
     out = {}
     hw_line = {}
     init_lines = []
     for m in (("ma", "mz") if not where or where[0] == "ma" else ("mz", "ma")):
-        lines = header(table)
+        lines = header(table, via, f"{pkg}._compat", how)
         need = sorted({b for i, c in enumerate(table) if where[i] == m for b in c["bases"] if where[b] != m})
         other = "mz" if m == "ma" else "ma"
         mine = [i for i in range(len(table)) if where[i] == m]
@@ -261,12 +334,14 @@ def render_split(table, where, pkg, imp="from"):
             init_lines.append(f"from {pkg}.{m} import " + ", ".join(f"K{i}" for i in mine))
         for i in mine:
             lines.append("")
-            cl, off = render_class(i, table[i])
+            cl, off = render_class(i, table[i], via=spell_via(table, via))
             if off is not None:
                 hw_line[i] = len(lines) + off + 1
             lines.extend(cl)
         out[m] = "\n".join(lines) + "\n"
     out["__init__"] = "\n".join(init_lines) + ("\n" if init_lines else "")
+    if via:
+        out["_compat"] = compat_source(via)
     return out, hw_line
 
 
@@ -377,17 +452,18 @@ def cpython_view(src, n):
 _counter = itertools.count()
 
 
-def render_xpkg(table, where, name):
+def render_xpkg(table, where, name, via=(), how="from"):
     """Cross-package layout: where[i] in 'a','b','c' names the package <name><letter> whose module `m` defines class i; a class may
     only derive from classes of its own or an EARLIER package (a <- b <- c), which real Python could import in that order.
     Each package gets its own import style for the bases it takes from earlier packages (by package letter):
       a/b/c -> from <pkg>.m import K   |  `from <pkg> import K` through an explicit re-export in <pkg>/__init__.py  |
       `from <pkg>.m import *` placed before the stdlib imports (so that the helper names are re-bound by the stdlib line).
+    via / how: helper names that reach every module `m` through its own package's `_compat` module.
     Returns ({package: {module: source}} in dependency order, {class index: line of hand-written def __init__}, locate)."""
     out, hw_line = {}, {}
     for letter in sorted(set(where)):
         pkg = name + letter
-        lines = header(table)
+        lines = header(table, via, f"{pkg}._compat", how)
         mine = [i for i in range(len(table)) if where[i] == letter]
         need = sorted({b for i in mine for b in table[i]["bases"] if where[b] != letter})
         style = (table[mine[0]].get("style", 0) + len(need)) % 3
@@ -400,35 +476,53 @@ def render_xpkg(table, where, name):
                 lines.append(f"from {src_pkg} import K{b}")
             elif src_pkg not in stars:
                 stars.append(src_pkg)
-        for k, sp in enumerate(stars):
-            lines.insert((1 if lines[0].startswith("from __future__") else 0) + k, f"from {sp}.m import *")
+        for k, star_pkg in enumerate(stars):
+            lines.insert((1 if lines[0].startswith("from __future__") else 0) + k, f"from {star_pkg}.m import *")
         for i in mine:
             lines.append("")
-            cl, off = render_class(i, table[i])
+            cl, off = render_class(i, table[i], via=spell_via(table, via))
             if off is not None:
                 hw_line[i] = len(lines) + off + 1
             lines.extend(cl)
         out[pkg] = {"m": "\n".join(lines) + "\n",
                     "__init__": f"from {pkg}.m import " + ", ".join(f"K{i}" for i in mine) + "\n"}
+        if via:
+            out[pkg]["_compat"] = compat_source(via)
     return out, hw_line, (lambda i: f"{name}{where[i]}.m.K{i}")
+
+
+UNLOADED = 99      # a module index that is not in the layout: `from typing import *`
+
+
+def std_stmts(table, via, compat, how):
+    """the import lines of header() as layout statements: the one-hop bindings, then the names routed through _compat"""
+    hs = [h for h, nme in enumerate(HELPERS) if nme not in via and not (nme == "ClassVar" and typing_star(table))]
+    out = [["std", hs]]
+    if typing_star(table) and "ClassVar" not in via:
+        out.append(["star", UNLOADED])
+    if via:
+        out += [["fromh", compat, h] for h, nme in enumerate(HELPERS) if nme in via] if how == "from" else [["star", compat]]
+    return out
 
 
 def layout_of(table, split):
     """The generated files as the statements of Model/C18_layout.v, mirroring render / render_split / render_xpkg line by line
     (only the order of the statements matters): returns (modules, per class (module index, base names))."""
     where, imp = split_parts(split)
+    via, how = via_parts(split)
     n = len(table)
+    compat_mod = [[["std", [h for h, nme in enumerate(HELPERS) if nme in via]]], []]
     if where is None:
-        return [[[["std"]] + [["class", i] for i in range(n)], []]], [[0, list(table[i]["bases"])] for i in range(n)]
+        return [[std_stmts(table, (), 0, how) + [["class", i] for i in range(n)], []]], [[0, list(table[i]["bases"])] for i in range(n)]
     if imp == "xpkg":
         letters = sorted(set(where))
-        idx = {letter: 2 * p for p, letter in enumerate(letters)}        # __init__ of the package; its module m is idx + 1
+        idx = {letter: 3 * p for p, letter in enumerate(letters)}        # __init__ of the package; its module m is idx + 1, _compat idx + 2
         mods = []
         for letter in letters:
             mine = [i for i in range(n) if where[i] == letter]
             need = sorted({b for i in mine for b in table[i]["bases"] if where[b] != letter})
             style = (table[mine[0]].get("style", 0) + len(need)) % 3
-            stmts, stars = [["std"]], []
+            stmts, stars = std_stmts(table, via, idx[letter] + 2, how), []
             for b in need:
                 q = idx[where[b]]
                 if style == 0:
@@ -440,6 +534,7 @@ def layout_of(table, split):
             stmts = [["star", q] for q in stars] + stmts
             mods.append([[["from", idx[letter] + 1, i] for i in mine], []])
             mods.append([stmts + [["class", i] for i in mine], []])
+            mods.append(compat_mod)
         return mods, [[idx[where[i]] + 1, list(table[i]["bases"])] for i in range(n)]
     mi = {"__init__": 0, "ma": 1, "mz": 2}
     mods = {0: [[], []], 1: None, 2: None}
@@ -447,7 +542,7 @@ def layout_of(table, split):
         other = "mz" if m == "ma" else "ma"
         mine = [i for i in range(n) if where[i] == m]
         need = sorted({b for i in mine for b in table[i]["bases"] if where[b] != m})
-        stmts = [["std"]]
+        stmts = std_stmts(table, via, 3, how)
         if imp in ("wild", "wild_all", "wild_shadow"):
             if need:
                 stmts = [["star", mi[other]]] + stmts if imp == "wild" else stmts + [["star", mi[other]]]
@@ -460,7 +555,7 @@ def layout_of(table, split):
         if imp == "reexport_from" and mine:
             mods[0][0] += [["from", mi[m], i] for i in mine]
         mods[mi[m]] = [stmts + [["class", i] for i in mine], [list(mine)] if imp == "wild_all" else []]
-    return [mods[0], mods[1], mods[2]], [[mi[where[i]], list(table[i]["bases"])] for i in range(n)]
+    return [mods[0], mods[1], mods[2], compat_mod], [[mi[where[i]], list(table[i]["bases"])] for i in range(n)]
 
 
 def make_recorder():
@@ -486,7 +581,14 @@ def make_recorder():
                             rb = [b.path for b in mem.resolved_bases]
                         except Exception as e:  # noqa: BLE001
                             rb = [f"raised {type(e).__name__}"]
-                        self.seen[mem.path] = [decs, rb]
+                        attrs = {}
+                        for an, am in mem.members.items():
+                            if am.is_alias or not am.is_attribute:
+                                continue
+                            ann, val = am.annotation, am.value
+                            attrs[an] = [getattr(ann, "canonical_path", None), getattr(val, "canonical_path", None) if type(val).__name__ == "ExprCall" else None,
+                                         "class-attribute" in am.labels and "instance-attribute" not in am.labels]
+                        self.seen[mem.path] = [decs, rb, attrs]
             walk(pkg)
     return Recorder()
 
@@ -555,9 +657,10 @@ def griffe_view(ctx, table, hw_line_single, split, load=None):
         if rec is not None:
             rec.seen.clear()
     base.mkdir(parents=True, exist_ok=True)
+    via, how = via_parts(split)
     if imp == "xpkg":
         base = base / f"x{k}"
-        pkgs, hw_line, locate = render_xpkg(table, where, name)
+        pkgs, hw_line, locate = render_xpkg(table, where, name, via, how)
         for pkg, mods in pkgs.items():
             (base / pkg).mkdir(parents=True)
             for m, text in mods.items():
@@ -576,7 +679,7 @@ def griffe_view(ctx, table, hw_line_single, split, load=None):
         else:
             d = base / name
             d.mkdir()
-            mods, hw_line = render_split(table, where, name, imp)
+            mods, hw_line = render_split(table, where, name, imp, via, how)
             for m, text in mods.items():
                 (d / f"{m}.py").write_text(text)
             locate = lambda i: f"{where[i]}.K{i}"  # noqa: E731
@@ -589,9 +692,20 @@ def griffe_view(ctx, table, hw_line_single, split, load=None):
         r = read_class(get(i), i, hw_line)
         seen = None
         if rec is not None:
-            decs, rb = rec.seen.get(full(i), [None, None])
+            decs, rb, attrs = rec.seen.get(full(i), [None, None, None])
             if decs is not None:
-                seen = [any(p == "dataclasses.dataclass" for p in decs), [full(b) in rb for b in table[i]["bases"]]]
+                # per helper name: None when the class does not use it, else whether every use is recognised
+                def allof(xs):
+                    xs = list(xs)
+                    return None if not xs else all(xs)
+                body = table[i]["body"]
+                got = lambda n: attrs.get(fname(n), [None, None, None])  # noqa: E731
+                seen = [any(p == "dataclasses.dataclass" for p in decs) if table[i]["dec"] is not None else None,
+                        [full(b) in rb for b in table[i]["bases"]],
+                        allof(got(s[1])[1] == "dataclasses.field" for s in body if s[0] == "attr" and s[3][0] == "field" and s[2] != "none"),
+                        allof(got(s[1])[0] == "dataclasses.KW_ONLY" for s in body if s[0] == "attr" and s[2] == "kwonly"),
+                        allof(got(s[1])[0] == "dataclasses.InitVar" for s in body if s[0] == "attr" and s[2] == "initvar"),
+                        allof(got(s[1])[2] for s in body if s[0] == "attr" and s[2] == "classvar" and s[3][0] != "none")]
         out.append(r + [seen])
     return out
 
@@ -694,7 +808,13 @@ def rand_table(rng, maxn=4, quiet=False, initvar=0.0):
         hw = None
         if rng.random() < 0.12:
             hw = [] if (quiet or rng.random() < 0.6) else [80 + i]
-        table.append({"dec": dec, "body": rand_body(rng, state, decorated, quiet, initvar), "hw": hw, "bases": bases, "style": rng.randrange(210)})
+        body = rand_body(rng, state, decorated, quiet, initvar)
+        post = None
+        if decorated and hw is None and rng.random() < 0.15:
+            # __post_init__ assigning declared fields (whatever their form: init=False, kw_only, required, ClassVar, InitVar) and new attributes
+            declared = [s[1] for s in body if s[0] == "attr" and s[2] != "kwonly"]
+            post = [(nme, False) for nme in declared if rng.random() < 0.6] + [(70 + i, rng.random() < 0.5) for _ in range(rng.choice([0, 1, 1]))]
+        table.append({"dec": dec, "body": body, "hw": hw, "bases": bases, "style": rng.randrange(30030), "post": post})
     return table
 
 
@@ -717,13 +837,13 @@ def rand_diamond(rng):
     # the join and the class below it: decorated, undecorated (inherits its constructor) or init=False (fields, no __init__)
     leaf = lambda: rng.choice([(None, None), (None, None), (None, None), None, None, (False, None)])  # noqa: E731
     d0, d1, d2, d3 = dec(), dec(), dec(), leaf()
-    t = [{"dec": d0, "body": body(d0 is not None), "hw": None, "bases": [], "style": rng.randrange(210)},
-         {"dec": d1, "body": body(d1 is not None), "hw": hw(), "bases": [0], "style": rng.randrange(210)},
-         {"dec": d2, "body": body(d2 is not None), "hw": hw(), "bases": [0], "style": rng.randrange(210)},
-         {"dec": d3, "body": body(d3 is not None) if rng.random() < 0.5 else [], "hw": None, "bases": rng.choice([[1, 2], [2, 1]]), "style": rng.randrange(210)}]
+    t = [{"dec": d0, "body": body(d0 is not None), "hw": None, "bases": [], "style": rng.randrange(30030)},
+         {"dec": d1, "body": body(d1 is not None), "hw": hw(), "bases": [0], "style": rng.randrange(30030)},
+         {"dec": d2, "body": body(d2 is not None), "hw": hw(), "bases": [0], "style": rng.randrange(30030)},
+         {"dec": d3, "body": body(d3 is not None) if rng.random() < 0.5 else [], "hw": None, "bases": rng.choice([[1, 2], [2, 1]]), "style": rng.randrange(30030)}]
     if rng.random() < 0.3:
         d4 = leaf()
-        t.append({"dec": d4, "body": body(d4 is not None), "hw": None, "bases": [3], "style": rng.randrange(210)})
+        t.append({"dec": d4, "body": body(d4 is not None), "hw": None, "bases": [3], "style": rng.randrange(30030)})
     return t
 
 
@@ -777,7 +897,7 @@ def table_depth(table):
 
 
 def case_json(table, split):
-    return {"table": [{"dec": c["dec"], "body": c["body"], "hw": c["hw"], "bases": c["bases"], "style": c["style"]} for c in table],
+    return {"table": [{"dec": c["dec"], "body": c["body"], "hw": c["hw"], "bases": c["bases"], "style": c["style"], "post": c.get("post")} for c in table],
             "split": split, "source": render(table)[0]}
 
 
@@ -800,7 +920,20 @@ def rand_split(rng, table):
     else:
         cut = rng.randint(1, max(1, n - 1))
     base_mod, derived_mod = rng.choice([("ma", "mz"), ("mz", "ma")])
-    return {"where": [base_mod if i < cut else derived_mod for i in range(n)], "imp": rng.choice(IMPORT_STYLES)}
+    out = {"where": [base_mod if i < cut else derived_mod for i in range(n)], "imp": rng.choice(IMPORT_STYLES)}
+    if out["imp"] != "wild_shadow":
+        add_via(rng, out)
+    return out
+
+
+def add_via(rng, split):
+    """25 % of the package layouts: some helper names reach the modules through the package's _compat module (explicit re-export
+    import or star import) instead of a direct import; ClassVar most often (it stays recognised: last name), the others are
+    finding C18-F10 through another route."""
+    if rng.random() < 0.25:
+        names = [nme for nme in HELPERS if rng.random() < (0.7 if nme == "ClassVar" else 0.25)]
+        if names:
+            split["via"] = {"names": names, "how": rng.choice(["from", "star"])}
 
 
 def rand_xsplit(rng, table):
@@ -814,7 +947,9 @@ def rand_xsplit(rng, table):
     else:
         c1 = rng.randint(1, max(1, n - 1))
     c2 = rng.randint(c1, n) if rng.random() < 0.5 else n
-    return {"where": ["a" if i < c1 else ("b" if i < c2 else "c") for i in range(n)], "imp": "xpkg"}
+    out = {"where": ["a" if i < c1 else ("b" if i < c2 else "c") for i in range(n)], "imp": "xpkg"}
+    add_via(rng, out)
+    return out
 
 
 def walk_events(rng, table, split):
@@ -832,26 +967,55 @@ def walk_events(rng, table, split):
     return [[i for m in mods for i in range(n) if where[i] == m]]
 
 
-def mask_table(table, f10):
-    """the table as Griffe reads it when the decorators of the classes in f10 are not recognised (their field() calls are plain values then)"""
+def mask_table(table, flags):
+    """the table as Griffe reads it when some helper names are not recognised in the module of a class (finding C18-F10):
+    flags[i] = [dataclass at the event, dataclass for the visitor, field, KW_ONLY, InitVar, ClassVar]."""
     out = []
-    for i, c in enumerate(table):
-        if i in f10:
-            body = [("attr", s[1], s[2], ("plain",) if s[3][0] == "field" else s[3]) if s[0] == "attr" else s for s in c["body"]]
-            out.append({**c, "dec": None, "body": body})
-        else:
-            out.append(c)
+    for c, (dc, _dcv, fld, kwo, _iv, cv) in zip(table, flags):
+        body = []
+        for s in c["body"]:
+            if s[0] == "attr":
+                _, n, a, v = s
+                if v[0] == "field" and not (dc and fld):
+                    v = ("plain",)                      # an unrecognised call is a plain value
+                if a == "kwonly" and not kwo:
+                    a = "plain"                         # the sentinel is an annotated attribute like any other
+                if a == "classvar" and not cv:
+                    a = "plain"
+                s = ("attr", n, a, v)
+            body.append(s)
+        out.append({**c, "dec": c["dec"] if dc else None, "body": body})
+    return out
+
+
+def masked_differs(c, m):
+    return c["dec"] != m["dec"] or list(c["body"]) != list(m["body"])
+
+
+def py_flags(table, split):
+    """C18-F10 classifier at the layout level, per class [dataclass at the event, dataclass for the visitor, field, KW_ONLY, InitVar,
+    ClassVar] = is the helper name still bound by a direct (one-hop) import where the class is defined.  Compared with the layout
+    model (Model/C18_layout.v) on every case.  Two ways to lose a name: a star import of a sibling without __all__ placed after the
+    stdlib imports re-binds every helper name when it is expanded (after the visit); a name that is re-exported by the package's
+    _compat module (explicit or star import) never had a one-hop binding.  ClassVar is recognised by its last name."""
+    where, imp = split_parts(split)
+    via, _how = via_parts(split)
+    n = len(table)
+    shadow = set()
+    if where is not None and imp == "wild_shadow":
+        mods = {m for i, c in enumerate(table) for m in [where[i]] if any(where[b] != m for b in c["bases"])}
+        shadow = {i for i in range(n) if where[i] in mods}
+    out = []
+    for i in range(n):
+        ev = [nme not in via and i not in shadow for nme in HELPERS[:4]]
+        out.append([ev[0], "dataclass" not in via, ev[1], ev[2], ev[3], True])
     return out
 
 
 def shadowed(table, split):
-    """C18-F10 classifier (layout level, outside the Coq model): classes defined in a module whose star import of a sibling
-    (placed after the stdlib imports, sibling without __all__) re-binds `dataclass`, `field`, `KW_ONLY`, `InitVar`, `dataclasses`."""
-    where, imp = split_parts(split)
-    if where is None or imp != "wild_shadow":
-        return set()
-    mods = {m for i, c in enumerate(table) for m in [where[i]] if any(where[b] != m for b in c["bases"])}
-    return {i for i in range(len(table)) if where[i] in mods}
+    """classes that Griffe reads differently from what is written because of finding C18-F10"""
+    m = mask_table(table, py_flags(table, split))
+    return {i for i, c in enumerate(table) if masked_differs(c, m[i])}
 
 
 def enc_session(classes, paths, events, drop_cache=False, keep_processed=False):
@@ -894,7 +1058,7 @@ def check_tables(ctx, tables, stream, use_model=True, mirror=False, loads=None, 
         shadow = [(k, f) for k, f in shadow if f]
         allres = ctx.model(encs + [enc_session(e[1], range(len(e[1])), ev) for e, (_, _, _, _, _, ev) in zip(encs, prepared)]
                            + [["layout", *layout_of(t, sp)] for _, t, _, sp, _, _ in prepared]
-                           + [enc_table(mask_table(prepared[k][1], f), prepared[k][2]) for k, f in shadow])
+                           + [enc_table(mask_table(prepared[k][1], py_flags(prepared[k][1], prepared[k][3])), prepared[k][2]) for k, f in shadow])
         np_ = len(prepared)
         mres, sres, lres = allres[:np_], allres[np_:2 * np_], allres[2 * np_:3 * np_]
         masked = {k: r for (k, _), r in zip(shadow, allres[3 * np_:])}
@@ -937,6 +1101,11 @@ def check_tables(ctx, tables, stream, use_model=True, mirror=False, loads=None, 
             if load is not None:
                 load["prev"].append({"table": case["table"], "split": split})
         except Exception as e:  # noqa: BLE001
+            if type(e).__name__ == "AliasResolutionError" and body_imports(table) and not gen_flag("skips_alias_members"):
+                # finding C18-F11: the tree under test still asks an imported class-body name for its kind
+                ctx.observe("outcome", "load raises: C18-F11")
+                ctx.property_failure(case, {"griffe.load raised": f"{type(e).__name__}: {e}", "classes with an import in the body": body_imports(table)}, finding="C18-F11")
+                continue
             ctx.tie_failure("harness", "griffe.load raised on a generated hierarchy", f"{type(e).__name__}: {e}", case)
             ctx.property_failure(case, {"griffe.load raised": f"{type(e).__name__}: {e}"})
             continue
@@ -953,24 +1122,27 @@ def check_tables(ctx, tables, stream, use_model=True, mirror=False, loads=None, 
                 ctx.tie_failure("oracle", "py_eval_table(model) accepts vs CPython executes the module",
                                 {"model_accepts": accepted, "cpython": why or "ok"}, case)
         f10 = shadowed(table, split)
+        flags = py_flags(table, split)
         if use_model:
-            # what the extension can see when the event fires: the layout model (Model/C18_layout.v) vs the recorder extension,
+            # what the extension (and the visitor) can see: the layout model (Model/C18_layout.v) vs the recorder extension,
             # and the layout predicate of this module vs the model
-            m_unrec = {i for i in range(len(table)) if not lr[i][0]}
-            if m_unrec != f10:
-                ctx.tie_failure("harness", "layout predicate `shadowed` vs recognised(model of the layout)", {"python": sorted(f10), "model": sorted(m_unrec)}, case)
+            m_flags = [[bool(r[0]), bool(r[2]), bool(r[3]), bool(r[4]), bool(r[5]), bool(r[6])] for r in lr]
+            if m_flags != flags:
+                ctx.tie_failure("harness", "layout predicate py_flags vs recognised_h(model of the layout)", {"python": flags, "model": m_flags}, case)
             for i, c in enumerate(table):
                 seen = gv[i][4]
                 if seen is None:
                     continue
                 ctx.count("event-time observations")
-                want = [bool(lr[i][0]) if c["dec"] is not None else None, [bool(x) for x in lr[i][1]]]
-                have = [seen[0] if c["dec"] is not None else None, seen[1]]
-                if want != have:
-                    ctx.tie_failure("correspondence", "layout model: decorator recognised / bases resolved when on_package_loaded fires vs recorder extension",
-                                    {"class": i, "model": want, "impl": have}, case)
-                if c["dec"] is not None:
-                    ctx.observe("event time: decorator recognised", bool(seen[0]))
+                # the recorder says None for a name the class does not use
+                want = [bool(lr[i][0]), [bool(x) for x in lr[i][1]], bool(lr[i][3]), bool(lr[i][4]), bool(lr[i][5]), bool(lr[i][6])]
+                want = [w if h is not None else None for w, h in zip(want, seen)]
+                if want != seen:
+                    ctx.tie_failure("correspondence", "layout model: helper names recognised / bases resolved when on_package_loaded fires (ClassVar: at the visit) vs recorder extension",
+                                    {"class": i, "model [dataclass, bases, field, KW_ONLY, InitVar, ClassVar]": want, "impl": seen}, case)
+                for nme, x in zip(["dataclass", None, "field", "KW_ONLY", "InitVar", "ClassVar"], seen):
+                    if nme and x is not None:
+                        ctx.observe(f"event time: {nme} recognised", bool(x))
                 for x in seen[1]:
                     ctx.observe("event time: base resolved", bool(x))
         tainted = {i for i in range(len(table)) if any(j in f10 for j in [i] + mros[i])}
@@ -982,7 +1154,7 @@ def check_tables(ctx, tables, stream, use_model=True, mirror=False, loads=None, 
                 mm = masked[pk][2][i]
                 # the label of the class itself comes from the visitor, which still sees `dataclass` bound to dataclasses.dataclass
                 # (the star import is expanded after the visit); the extension's view of the parents is the masked one
-                want = [mm[0], bool(mm[2]) or table[i]["dec"] is not None, dec_presented(mm[5])]
+                want = [mm[0], bool(mm[2]) or (table[i]["dec"] is not None and flags[i][1]), dec_presented(mm[5])]
                 have = [norm_member(gv[i][0]), gv[i][1], gv[i][3]]
                 if want != have:
                     ctx.tie_failure("correspondence", "model on the table with the shadowed decorators dropped (finding F10) vs Griffe",
@@ -992,7 +1164,7 @@ def check_tables(ctx, tables, stream, use_model=True, mirror=False, loads=None, 
             ctx.observe("F10 layouts: classes reproduced by the model on the masked table", len(f10_confirmed))
             f10 &= f10_confirmed
             tainted &= f10_confirmed
-        records[ti] = {"table": table, "mros": mros, "split": split, "gv": gv, "cv": cv, "f10": f10, "events": events, "case": case}
+        records[ti] = {"table": table, "mros": mros, "split": split, "gv": gv, "cv": cv, "f10": tainted, "events": events, "case": case}
         for i, c in enumerate(table):
             g_mem, g_label, g_mro, g_pres, _seen = gv[i]
             if g_mro != mros[i]:
@@ -1010,15 +1182,15 @@ def check_tables(ctx, tables, stream, use_model=True, mirror=False, loads=None, 
             if use_model:
                 m_g, m_py, m_glabel, m_pylabel, m_gaps, m_gp, m_pyp, m_anygap = per[i]
                 m_gp = dec_presented(m_gp)
-                if m_g != norm_member(g_mem) and i not in f10:
+                if m_g != norm_member(g_mem) and i not in tainted:
                     ctx.tie_failure("correspondence", "g_init_member(model) vs members['__init__'] after griffe.load", {"class": i, "model": m_g, "impl": g_mem}, case)
-                if bool(m_glabel) != g_label and i not in f10:
+                if bool(m_glabel) != g_label and i not in tainted:
                     ctx.tie_failure("correspondence", "g_label(model) vs 'dataclass' in labels", {"class": i, "model": m_glabel, "impl": g_label}, case)
                 if m_gp != g_pres and i not in tainted:
                     ctx.tie_failure("correspondence", "g_presented(model) vs Class.parameters / all_members['__init__'] owner", {"class": i, "model": m_gp, "impl": g_pres}, case)
                 # the extension as a state machine (walk order, cache, InitVar pruning, one event per package)
                 s_mem, s_lab = sr[i]
-                if (s_mem != norm_member(g_mem) or bool(s_lab) != g_label) and i not in f10:
+                if (s_mem != norm_member(g_mem) or bool(s_lab) != g_label) and i not in tainted:
                     ctx.tie_failure("correspondence", "session machine (model) vs members['__init__'] / label after the loads",
                                     {"class": i, "model": [s_mem, s_lab], "impl": [g_mem, g_label], "events": events}, case)
                 if cv is not None:
@@ -1042,7 +1214,7 @@ def check_tables(ctx, tables, stream, use_model=True, mirror=False, loads=None, 
                     fid = None
                     if gaps is not None:
                         hit = [FINDINGS[k] for k, g in enumerate(gaps) if g]
-                        fid = hit[0] if hit else ("C18-F10" if i in f10 else None)
+                        fid = hit[0] if hit else ("C18-F10" if i in tainted else None)
                         for h in hit:
                             ctx.observe("gap of a differing class", h)
                     ctx.observe("outcome", "init differs: " + (fid or "UNEXPLAINED"))
@@ -1077,7 +1249,7 @@ def check_tables(ctx, tables, stream, use_model=True, mirror=False, loads=None, 
                     ctx.observe("presented constructor equal", kind)
             if g_label != c_isdc:
                 ctx.observe("outcome", "label differs")
-                ctx.property_failure(case, {"class": i, "griffe label": g_label, "is_dataclass": c_isdc}, finding="C18-F10" if (gaps is not None and i in f10) else None)
+                ctx.property_failure(case, {"class": i, "griffe label": g_label, "is_dataclass": c_isdc}, finding="C18-F10" if (gaps is not None and i in tainted) else None)
             elif c_isdc and c["dec"] is None:
                 ctx.observe("outcome", "inherited label present")
     return records
@@ -1166,6 +1338,24 @@ def replay_witnesses(ctx):
     gv = griffe_view(ctx, table, hw_line, split)
     cv, _ = cpython_view(src, len(table))
     ctx.witness("C18-F10", cv is not None and i in shadowed(table, split) and norm_member(gv[i][0]) != norm_member(cv[i][0]))
+    # the same finding through the other route: `field` and `KW_ONLY` re-exported by a module of the package
+    t2 = [K(D0, [A(0, v=("field", False, None, True, False, False)), A(90, "kwonly"), A(1, v=("plain",))]), K(D0, [A(2, v=("plain",))], [0])]
+    sp2 = {"where": ["ma", "mz"], "imp": "from", "via": {"names": ["field", "KW_ONLY"], "how": "from"}}
+    gv2 = griffe_view(ctx, t2, render(t2)[1], sp2)
+    cv2, _ = cpython_view(render(t2)[0], 2)
+    if not (cv2 is not None and shadowed(t2, sp2) == {0} and norm_member(gv2[0][0]) != norm_member(cv2[0][0])):
+        ctx.tie_failure("harness", "the re-export witness of C18-F10 no longer reproduces", {"griffe": gv2[0][0], "cpython": cv2 and cv2[0][0]}, case_json(t2, sp2))
+    # C18-F11: an import inside the body of a dataclass (style 4: the statement at position 0 is rendered as an import)
+    t11 = [{**K(D0, [A(0, "none", ("plain",)), A(1, v=("plain",))]), "style": 4}]
+    if not gen_flag("skips_alias_members"):
+        try:
+            griffe_view(ctx, t11, render(t11)[1], None)
+            raised = False
+        except Exception as e:  # noqa: BLE001
+            raised = type(e).__name__ == "AliasResolutionError"
+        ctx.witness("C18-F11", bool(body_imports(t11)) and raised)
+    else:
+        check_tables(ctx, [t11], "corpus: witnesses of repaired defects (must pass)")
     fixed = REPAIRED_BY_MODE[current_mode()]
     for fid, (table, i) in WITNESSES.items():
         mros = cpython_mros(table)
@@ -1246,7 +1436,7 @@ def evolve(rng, table):
         free = [n for n in range(NAMES) if n not in used]
         if free and rng.random() < 0.7:
             body.append(("attr", rng.choice(free), "plain", ("plain",)))
-        out.append({"dec": c["dec"], "body": body, "hw": c["hw"], "bases": list(c["bases"]), "style": c["style"] + 1})
+        out.append({"dec": c["dec"], "body": body, "hw": c["hw"], "bases": list(c["bases"]), "style": c["style"] + 1, "post": c.get("post")})
     return out
 
 
@@ -1310,7 +1500,7 @@ def replay(ctx, data):
         return 0
     def untable(tj):
         return [{"dec": None if c["dec"] is None else tuple(c["dec"]), "body": [detuple(s) for s in c["body"]], "hw": c["hw"], "bases": c["bases"],
-                 "style": c.get("style", 0)} for c in tj]
+                 "style": c.get("style", 0), "post": [tuple(x) for x in c["post"]] if c.get("post") else None} for c in tj]
     table = untable(case["table"])
     ctx.scratch.mkdir(parents=True, exist_ok=True)
     src, hw_line = render(table)
